@@ -268,7 +268,7 @@ def gen_tuples(c, order, rng, tier):
         (rd(), rh(nb), 0, "k0"),
         (rd(), (b"\x80" + b"\x00" * nb) if order == "big" else (b"\x00" * nb + b"\x80"), rk(), "hlen+1-topbit"),
     ]
-    for i in range(9 if tier == "thorough" else 0):
+    for i in range(5 if tier == "thorough" else 0):
         T.append((rd(), rh(rng.range(1, 2 * nb + 1)), rk(), "rand%d" % i))
     out = []
     for i, (d, h, k, tag) in enumerate(T):
@@ -463,7 +463,7 @@ def gen_mutations(c, order, t, r, s, rng, tier):
     pub("key-short", h, rb, sb, encs["packed"][0][:-1], None, tgt=ext)
     pick = list(ext)
     rng.shuffle(pick)
-    return core + pick[:(12 if tier == "thorough" else 4)], form
+    return core + pick[:(8 if tier == "thorough" else 4)], form
 
 
 # ---------------------------------------------------------------------------
@@ -913,9 +913,9 @@ def honesty_faults(part, c, ci, oname, order, le, vname, vm, exe, rng, tier):
 def run(tier):
     report = common.Report(PROP, tier, "exploration")
     report.rule = (
-        "per curve (32) x byte order (2) x build variant: 15 (+30 thorough) sign tuples mixing private keys "
+        "per curve (32) x byte order (2) x build variant: 15 (+5 random, thorough) sign tuples mixing private keys "
         "{1,2,n-1,random}, hash values {0,1,n-1,n,n+1,2^(8*bytes)-1,random} and lengths {1,bytes-1,bytes,bytes+1,"
-        "2*bytes,2*bytes+1,random}, nonces {0,1,n-1,n,max,random}; per signed tuple ~15 (thorough ~75) mutated "
+        "2*bytes,2*bytes+1,random}, nonces {0,1,n-1,n,max,random}; per signed tuple ~27 (thorough ~31) mutated "
         "verification tuples (bit flips of hash inside/beyond the truncation, of r and s, boundary r/s, n-s, swap, "
         "10 kinds of wrong/invalid public key in 4 layouts, forged signature for O) through the public-key and "
         "the private-key verifier; bn-level verifiers on over-wide/invalid objects; failpoint enumeration. "
